@@ -221,6 +221,23 @@ def temporaries_part(ck):
 BORROWCK_CODES = {"E0382", "E0499", "E0502", "E0503", "E0505", "E0506", "E0507", "E0515", "E0521", "E0597", "E0713", "E0716"}
 
 
+def regex_history_part(ck):
+    """The same regex literal on the same value, in 7 positions, after 0 / 15 / 16 / 17 / 40 OTHER regex literals have been evaluated on
+    the thread: the position sweep varies the position only; this varies what came before (seed C11-13: a 16-slot cache of compiled
+    regexes answered an evicted pattern with another pattern's regex - a matching value rejected, a non-matching one accepted)."""
+    import verdicts
+    fam = t3.run_corpus(ck, "c11-regex-history", 0, per_bin=14, positions=verdicts.regex_history_cases)
+    stats, mism = t3.compare(ck, fam, "c11-regex-history")
+    for m in mism:
+        c = m["case"]
+        if m["kind"] in ("verdict", "crashed"):
+            ck.report("verdict:history/regex", "a regex pattern gives another verdict on the same value after other regex patterns were evaluated on the thread (in every position it must mean the regex's own answer)",
+                      dict(t3.describe(c), setup=getattr(c, "setup", "")[:400] + " ..."))
+    ck.corr_record("T3 regex literal after a history of other regex literals (0 / 15 / 16 / 17 / 40 distinct ones) x 7 positions x {matching, non-matching value}: verdict vs the specification",
+                   len(fam), len(fam), len(mism), dict(stats), samples=[dict(invocation="assert_struct!(%s)" % c.text, value=c.value_text, impl=c.got[0]) for c in fam[:2]],
+                   rule="5 history lengths x 7 positions x 2 values; every program distinct")
+
+
 def run(ck):
     ck.prove(["AsModel.Theorems.C11", "AsModel.Theorems.C11Temporaries"])
     ck.build_harness("inproc")
@@ -274,6 +291,7 @@ def run(ck):
         ck.report("corr:T2-body", "the model of the code generator no longer matches the real expansion (%d inputs differ)" % len(mm),
                   dict(broken="correspondence T2 (expansion tokens)", theorems=["expandPat_subst", "C11_template_position_independent", "C11_elem_code", "C11_after_operations"], first=mm[:3]), no_input=True)
     temporaries_part(ck)
+    regex_history_part(ck)
     import parsetie
     parsetie.light_tie(ck, "C11: the compiled programs' expectations read patterns with the model parser")
     ck.assumptions += ["acceptance is decided by rustc itself (the oracle); the model's reference-level calculus is validated against it cell by cell, not proved about rustc"]
